@@ -5,7 +5,7 @@ Models: `ScyllaVerif/Model/Retry.lean` (the three retry policies), `ScyllaVerif/
 
 All theorems quantify over EVERY plan (list of targets, with or without a connection), EVERY outcome history
 `outcomes : Nat → Outcome` (what the k-th attempt returns — any length, any errors with any field values), the
-idempotence flag, the initial consistency and the policy.
+idempotence flag, the initial consistency and the policy.  `run` = one request = one fiber over the plan.
 -/
 import ScyllaVerif.Model.Retry
 import ScyllaVerif.Model.Exec
@@ -13,11 +13,11 @@ import ScyllaVerif.Model.Exec
 namespace ScyllaVerif.Props.C06
 open ScyllaVerif.Retry ScyllaVerif.Exec
 
-/-! ### the decision tables -/
+/-! ### the decision tables (every session state, every error with every field value) -/
 
 /-- **Decision table, non-idempotent column.**  Whatever the policy, its session state, the consistency and
-the error (with any field values): a retry decision for a request that is not marked idempotent is only ever
-taken on an error that proves the attempt was not applied. -/
+the error: a retry decision for a request that is not marked idempotent is only ever taken on an error that
+proves the attempt was not applied. -/
 theorem decide_nonidempotent_retry_only_after_proof (pol : Policy) (s : Sess) (e : Err) (cl : Consistency)
     (h : (decideRetry pol s ⟨e, false, cl⟩).2.isRetry = true) : proofOfNonApplication e = true := by
   cases pol <;> cases e <;> try (rename_i db; cases db)
@@ -25,5 +25,755 @@ theorem decide_nonidempotent_retry_only_after_proof (pol : Policy) (s : Sess) (e
     simp only [decideRetry, decideDefault, decideDowngrading, decideFallthrough, maxLikelyToWorkCl,
       proofOfNonApplication] at h ⊢
   all_goals (repeat' split at h) <;> simp_all [Decision.isRetry]
+
+/-- The default policy answers `DontRetry` to everything at serial consistency and leaves its flags alone. -/
+theorem decide_default_serial (s : Sess) (e : Err) (idem : Bool) (cl : Consistency) (h : cl.isSerial = true) :
+    decideRetry .default s ⟨e, idem, cl⟩ = (s, .dontRetry) := by
+  simp [decideRetry, decideDefault, h]
+
+/-- The fallthrough policy answers `DontRetry` to everything. -/
+theorem decide_fallthrough (s : Sess) (ri : ReqInfo) : decideRetry .fallthrough s ri = (s, .dontRetry) := rfl
+
+/-- `IgnoreWriteError` (report success although the write timed out) is never decided for a request that is
+not marked idempotent. -/
+theorem decide_ignore_only_idempotent (pol : Policy) (s : Sess) (e : Err) (cl : Consistency) :
+    (decideRetry pol s ⟨e, false, cl⟩).2 ≠ .ignoreWrite := by
+  cases pol <;> cases e <;> try (rename_i db; cases db)
+  all_goals
+    simp only [decideRetry, decideDefault, decideDowngrading, decideFallthrough, maxLikelyToWorkCl]
+  all_goals (repeat' split) <;> simp_all
+
+/-- The same-node retry budget of a session (number of unset one-shot flags gating `RetrySameTarget`) never
+grows … -/
+theorem budget_nonincreasing (pol : Policy) (s : Sess) (ri : ReqInfo) :
+    budget pol (decideRetry pol s ri).1 ≤ budget pol s := by
+  obtain ⟨e, idem, cl⟩ := ri
+  cases pol <;> cases e <;> try (rename_i db; cases db)
+  all_goals
+    simp only [decideRetry, decideDefault, decideDowngrading, budget]
+  all_goals (repeat' split) <;> simp_all <;> omega
+
+/-- … and every `RetrySameTarget` decision consumes one unit of it: the one-shot flags are really set, and
+never reset, on every path that retries on the same node. -/
+theorem budget_consumed_by_retrySame (pol : Policy) (s : Sess) (ri : ReqInfo)
+    (h : (decideRetry pol s ri).2.isRetrySame = true) :
+    budget pol (decideRetry pol s ri).1 + 1 ≤ budget pol s := by
+  obtain ⟨e, idem, cl⟩ := ri
+  cases pol <;> cases e <;> try (rename_i db; cases db)
+  all_goals
+    simp only [decideRetry, decideDefault, decideDowngrading, decideFallthrough, budget, maxLikelyToWorkCl] at h ⊢
+  all_goals (repeat' split at h) <;> simp_all [Decision.isRetrySame] <;>
+    first | omega | (split <;> simp_all <;> omega)
+
+/-- The fixed number of same-node retries per request: default 2, downgrading 1, fallthrough 0. -/
+theorem sameTargetBound_values :
+    sameTargetBound .default = 2 ∧ sameTargetBound .downgrading = 1 ∧ sameTargetBound .fallthrough = 0 := by
+  decide
+
+/-- Hence one session never issues more `RetrySameTarget` decisions than its bound, over a history of any
+length, with any errors and consistencies. -/
+theorem replay_retrySame_bounded (pol : Policy) (idem : Bool) (s : Sess) (hist : List (Err × Consistency)) :
+    ((replay pol idem s hist).filter Decision.isRetrySame).length ≤ budget pol s := by
+  induction hist generalizing s with
+  | nil => simp [replay]
+  | cons x rest ih =>
+    obtain ⟨e, cl⟩ := x
+    simp only [replay, List.filter_cons]
+    have h1 := budget_nonincreasing pol s ⟨e, idem, cl⟩
+    have ih' := ih (decideRetry pol s ⟨e, idem, cl⟩).1
+    split
+    · rename_i hs
+      have h2 := budget_consumed_by_retrySame pol s ⟨e, idem, cl⟩ hs
+      simp only [List.length_cons]
+      omega
+    · omega
+
+/-- `table_total`: every cell (policy × session state × error kind with any field values × idempotence ×
+consistency) has a decision.  `decideRetry` is a total Lean function whose `match`es list every constructor
+(Lean rejects a non-exhaustive match), so the wildcard arms of the Rust `match`es are closed by construction;
+the statement below is therefore immediate, and is recorded for the evidence. -/
+theorem table_total (pol : Policy) (s : Sess) (ri : ReqInfo) :
+    ∃ s' d, decideRetry pol s ri = (s', d) := ⟨_, _, rfl⟩
+
+/-- One decision per error of the history. -/
+theorem replay_length (pol : Policy) (idem : Bool) (s : Sess) (hist : List (Err × Consistency)) :
+    (replay pol idem s hist).length = hist.length := by
+  induction hist generalizing s with
+  | nil => rfl
+  | cons x rest ih => obtain ⟨e, cl⟩ := x; simp [replay, ih]
+
+-- non-vacuity: retry decisions exist for non-idempotent requests (on proof errors), the flags are one-shot,
+-- downgrading lowers the consistency, ignore is reachable for idempotent requests
+example :
+    decideRetry .default Sess.init ⟨.dbError (.readTimeout 2 2 false), false, .quorum⟩ =
+      ({ wasReadTimeoutRetry := true }, .retrySame none) ∧
+    (decideRetry .default { wasReadTimeoutRetry := true } ⟨.dbError (.readTimeout 2 2 false), false, .quorum⟩).2 =
+      .dontRetry ∧
+    (decideRetry .default Sess.init ⟨.brokenConnection, true, .quorum⟩).2 = .retryNext none ∧
+    (decideRetry .default Sess.init ⟨.brokenConnection, false, .quorum⟩).2 = .dontRetry ∧
+    (decideRetry .downgrading Sess.init ⟨.dbError (.unavailable 2), false, .quorum⟩).2 = .retrySame (some .two) ∧
+    (decideRetry .downgrading Sess.init ⟨.dbError (.writeTimeout 1 .simple), true, .quorum⟩).2 = .ignoreWrite ∧
+    (decideRetry .downgrading Sess.init ⟨.dbError (.unavailable 0), false, .serial⟩).2 = .retryNext none ∧
+    replay .default true Sess.init [(.dbError (.readTimeout 2 2 false), .one),
+      (.dbError (.writeTimeout 0 .batchLog), .one), (.dbError (.readTimeout 2 2 false), .one)] =
+      [.retrySame none, .retrySame none, .dontRetry] := by decide
+
+/-! ### the execution loop: helper lemmas about `exec` from an arbitrary loop state -/
+
+/-- Error of the `k`-th attempt (junk when it succeeded). -/
+def errAt (outcomes : Nat → Outcome) (k : Nat) : Err :=
+  match outcomes k with
+  | .fail e => e
+  | .ok => default
+
+/-- The history shown to the retry session: error of each failed attempt and the consistency it was sent at. -/
+def histOf (outcomes : Nat → Outcome) : Nat → List Attempt → List (Err × Consistency)
+  | _, [] => []
+  | k, a :: as => (errAt outcomes k, a.cl) :: histOf outcomes (k + 1) as
+
+/-- 1 when the fiber ended with an answer to its last attempt (success, `DontRetry`, `IgnoreWriteError`),
+0 when the plan ran out. -/
+def answeredLast : Final → Nat
+  | .exhausted _ => 0
+  | .outOfFuel => 0
+  | _ => 1
+
+/-- 1 when the last attempt succeeded. -/
+def succeeded : Final → Nat
+  | .completed _ => 1
+  | _ => 0
+
+/-- Number of retry decisions. -/
+def countRetry (ds : List Decision) : Nat := (ds.filter Decision.isRetry).length
+
+private theorem isRetry_of_same {d : Decision} {c} (h : d = .retrySame c) : d.isRetry = true := by
+  subst h; rfl
+private theorem isRetry_of_next {d : Decision} {c} (h : d = .retryNext c) : d.isRetry = true := by
+  subst h; rfl
+private theorem isRetrySame_of_same {d : Decision} {c} (h : d = .retrySame c) : d.isRetrySame = true := by
+  subst h; rfl
+
+private theorem exec_attempts_le (pol : Policy) (idem : Bool) (outcomes : Nat → Outcome) (fuel : Nat)
+    (plan : List Bool) (t : Nat) (loc : Loc) :
+    (exec pol idem outcomes fuel plan t loc).attempts.length
+      ≤ plan.length + budget pol (loc.sess.getD Sess.init) := by
+  fun_induction exec pol idem outcomes fuel plan t loc
+  case case1 => simp
+  case case2 => simp
+  case case3 ih => simp only [List.length_cons] at ih ⊢; omega
+  case case4 => simp only [List.length_cons, List.length_nil]; omega
+  case case5 fuel rest t loc a e hout created r loc' cl hd ih =>
+    have h2 := budget_consumed_by_retrySame pol (loc.sess.getD Sess.init) ⟨e, idem, loc.cl⟩
+      (isRetrySame_of_same hd)
+    simp only [Trace.push, List.length_cons, loc', Option.getD_some, r] at ih h2 ⊢
+    omega
+  case case6 fuel rest t loc a e hout created r loc' cl hd ih =>
+    have h1 := budget_nonincreasing pol (loc.sess.getD Sess.init) ⟨e, idem, loc.cl⟩
+    simp only [Trace.push, List.length_cons, loc', Option.getD_some, r] at ih h1 ⊢
+    omega
+  case case7 => simp only [List.length_cons, List.length_nil]; omega
+  case case8 => simp only [List.length_cons, List.length_nil]; omega
+
+private theorem exec_not_outOfFuel (pol : Policy) (idem : Bool) (outcomes : Nat → Outcome) (fuel : Nat)
+    (plan : List Bool) (t : Nat) (loc : Loc)
+    (h : plan.length + budget pol (loc.sess.getD Sess.init) < fuel) :
+    (exec pol idem outcomes fuel plan t loc).final ≠ .outOfFuel := by
+  fun_induction exec pol idem outcomes fuel plan t loc
+  case case1 => simp
+  case case2 => simp at h
+  case case3 ih => simp only [List.length_cons] at h; exact ih (by simpa using by omega)
+  case case4 => simp
+  case case5 fuel rest t loc a e hout created r loc' cl hd ih =>
+    have h2 := budget_consumed_by_retrySame pol (loc.sess.getD Sess.init) ⟨e, idem, loc.cl⟩
+      (isRetrySame_of_same hd)
+    simp only [Trace.push]
+    apply ih
+    simp only [List.length_cons, loc', Option.getD_some, r] at h h2 ⊢
+    omega
+  case case6 fuel rest t loc a e hout created r loc' cl hd ih =>
+    have h1 := budget_nonincreasing pol (loc.sess.getD Sess.init) ⟨e, idem, loc.cl⟩
+    simp only [Trace.push]
+    apply ih
+    simp only [List.length_cons, loc', Option.getD_some, r] at h h1 ⊢
+    omega
+  case case7 => simp
+  case case8 => simp
+
+private theorem exec_fuel_succ (pol : Policy) (idem : Bool) (outcomes : Nat → Outcome) (fuel : Nat)
+    (plan : List Bool) (t : Nat) (loc : Loc)
+    (h : plan.length + budget pol (loc.sess.getD Sess.init) < fuel) :
+    exec pol idem outcomes (fuel + 1) plan t loc = exec pol idem outcomes fuel plan t loc := by
+  fun_induction exec pol idem outcomes fuel plan t loc
+  case case1 => simp [exec]
+  case case2 => simp at h
+  case case3 ih =>
+    simp only [List.length_cons] at h
+    rw [exec]; exact ih (by simpa using by omega)
+  case case4 fuel rest t loc a hout => rw [exec]; simp [hout, a]
+  case case5 fuel rest t loc a e hout created r loc' cl hd ih =>
+    have h2 := budget_consumed_by_retrySame pol (loc.sess.getD Sess.init) ⟨e, idem, loc.cl⟩
+      (isRetrySame_of_same hd)
+    have ih' := ih (by simp only [List.length_cons, loc', Option.getD_some, r] at h h2 ⊢; omega)
+    rw [exec]; simp only [hout]
+    simp only [r] at hd
+    simp only [hd]
+    simp only [loc', r, hd] at ih'
+    simp only [hd, ih', loc', a, created, r]
+  case case6 fuel rest t loc a e hout created r loc' cl hd ih =>
+    have h1 := budget_nonincreasing pol (loc.sess.getD Sess.init) ⟨e, idem, loc.cl⟩
+    have ih' := ih (by simp only [List.length_cons, loc', Option.getD_some, r] at h h1 ⊢; omega)
+    rw [exec]; simp only [hout]
+    simp only [r] at hd
+    simp only [hd]
+    simp only [loc', r, hd] at ih'
+    simp only [hd, ih', loc', a, created, r]
+  case case7 fuel rest t loc a e hout created r hd =>
+    rw [exec]; simp only [hout]; simp only [r] at hd; simp only [hd, a, created]
+  case case8 fuel rest t loc a e hout created r hd =>
+    rw [exec]; simp only [hout]; simp only [r] at hd; simp only [hd, a, created]
+
+private theorem exec_nonidem (pol : Policy) (outcomes : Nat → Outcome) (fuel : Nat)
+    (plan : List Bool) (t : Nat) (loc : Loc) (i : Nat)
+    (hi : i + 1 < (exec pol false outcomes fuel plan t loc).attempts.length) :
+    ∃ e, outcomes (loc.k + i) = .fail e ∧ proofOfNonApplication e = true := by
+  fun_induction exec pol false outcomes fuel plan t loc generalizing i
+  case case1 => simp at hi
+  case case2 => simp at hi
+  case case3 ih => exact ih i hi
+  case case4 => simp at hi
+  case case5 fuel rest t loc a e hout created r loc' cl hd ih =>
+    cases i with
+    | zero =>
+      exact ⟨e, by simpa using hout,
+        decide_nonidempotent_retry_only_after_proof pol _ e loc.cl (isRetry_of_same hd)⟩
+    | succ j =>
+      have := ih j (by simpa [Trace.push] using hi)
+      simpa [loc', Nat.add_assoc, Nat.add_comm 1 j] using this
+  case case6 fuel rest t loc a e hout created r loc' cl hd ih =>
+    cases i with
+    | zero =>
+      exact ⟨e, by simpa using hout,
+        decide_nonidempotent_retry_only_after_proof pol _ e loc.cl (isRetry_of_next hd)⟩
+    | succ j =>
+      have := ih j (by simpa [Trace.push] using hi)
+      simpa [loc', Nat.add_assoc, Nat.add_comm 1 j] using this
+  case case7 => simp at hi
+  case case8 => simp at hi
+
+private theorem exec_default_serial (idem : Bool) (outcomes : Nat → Outcome) (fuel : Nat)
+    (plan : List Bool) (t : Nat) (loc : Loc) (h : loc.cl.isSerial = true) :
+    (exec .default idem outcomes fuel plan t loc).attempts.length ≤ 1 := by
+  fun_induction exec .default idem outcomes fuel plan t loc
+  case case1 => simp
+  case case2 => simp
+  case case3 ih => exact ih h
+  case case4 => simp
+  case case5 fuel rest t loc a e hout created r loc' cl hd ih =>
+    simp [r, decide_default_serial _ e idem loc.cl h] at hd
+  case case6 fuel rest t loc a e hout created r loc' cl hd ih =>
+    simp [r, decide_default_serial _ e idem loc.cl h] at hd
+  case case7 => simp
+  case case8 => simp
+
+private theorem exec_fallthrough (idem : Bool) (outcomes : Nat → Outcome) (fuel : Nat)
+    (plan : List Bool) (t : Nat) (loc : Loc) :
+    (exec .fallthrough idem outcomes fuel plan t loc).attempts.length ≤ 1 := by
+  fun_induction exec .fallthrough idem outcomes fuel plan t loc
+  case case1 => simp
+  case case2 => simp
+  case case3 ih => exact ih
+  case case4 => simp
+  case case5 fuel rest t loc a e hout created r loc' cl hd ih =>
+    simp [r, decide_fallthrough] at hd
+  case case6 fuel rest t loc a e hout created r loc' cl hd ih =>
+    simp [r, decide_fallthrough] at hd
+  case case7 => simp
+  case case8 => simp
+
+/-- attempts = retry decisions + (1 unless the plan ran out / fuel), decisions = failed attempts. -/
+private theorem exec_counts (pol : Policy) (idem : Bool) (outcomes : Nat → Outcome) (fuel : Nat)
+    (plan : List Bool) (t : Nat) (loc : Loc) :
+    let tr := exec pol idem outcomes fuel plan t loc
+    tr.attempts.length = countRetry tr.decisions + answeredLast tr.final ∧
+    tr.attempts.length = tr.decisions.length + succeeded tr.final := by
+  fun_induction exec pol idem outcomes fuel plan t loc
+  case case1 => simp [countRetry, answeredLast, succeeded]
+  case case2 => simp [countRetry, answeredLast, succeeded]
+  case case3 ih => exact ih
+  case case4 => simp [countRetry, answeredLast, succeeded]
+  case case5 fuel rest t loc a e hout created r loc' cl hd ih =>
+    have hr := isRetry_of_same hd
+    simp only [Trace.push, List.length_cons, countRetry, List.filter_cons, hr, if_true] at ih ⊢
+    omega
+  case case6 fuel rest t loc a e hout created r loc' cl hd ih =>
+    have hr := isRetry_of_next hd
+    simp only [Trace.push, List.length_cons, countRetry, List.filter_cons, hr, if_true] at ih ⊢
+    omega
+  case case7 => simp [countRetry, Decision.isRetry, answeredLast, succeeded]
+  case case8 => simp [countRetry, Decision.isRetry, answeredLast, succeeded]
+
+/-- The first attempt made from a loop state: at the current consistency, on the current target if it has a
+connection, else on a later one. -/
+private theorem exec_first (pol : Policy) (idem : Bool) (outcomes : Nat → Outcome) (fuel : Nat)
+    (plan : List Bool) (t : Nat) (loc : Loc) (b : Attempt)
+    (hb : (exec pol idem outcomes fuel plan t loc).attempts[0]? = some b) :
+    b.cl = loc.cl ∧ t ≤ b.target ∧ (plan.head? = some true → b.target = t) := by
+  fun_induction exec pol idem outcomes fuel plan t loc
+  case case1 => simp at hb
+  case case2 => simp at hb
+  case case3 ih =>
+    obtain ⟨h1, h2, _⟩ := ih hb
+    exact ⟨h1, by omega, by simp⟩
+  case case4 fuel rest t loc a hout =>
+    simp only [List.getElem?_cons_zero, Option.some.injEq] at hb; subst hb; simp [a]
+  case case5 fuel rest t loc a e hout created r loc' cl hd ih =>
+    simp only [Trace.push, List.getElem?_cons_zero, Option.some.injEq] at hb; subst hb; simp [a]
+  case case6 fuel rest t loc a e hout created r loc' cl hd ih =>
+    simp only [Trace.push, List.getElem?_cons_zero, Option.some.injEq] at hb; subst hb; simp [a]
+  case case7 fuel rest t loc a e hout created r hd =>
+    simp only [List.getElem?_cons_zero, Option.some.injEq] at hb; subst hb; simp [a]
+  case case8 fuel rest t loc a e hout created r hd =>
+    simp only [List.getElem?_cons_zero, Option.some.injEq] at hb; subst hb; simp [a]
+
+/-- Attempt `i+1` follows decision `i`: it is a retry decision, the consistency is the one it named (or
+unchanged), the target is the same for `RetrySameTarget` and a later one for `RetryNextTarget`. -/
+private theorem exec_threading (pol : Policy) (idem : Bool) (outcomes : Nat → Outcome) (fuel : Nat)
+    (plan : List Bool) (t : Nat) (loc : Loc) (i : Nat) (a b : Attempt)
+    (ha : (exec pol idem outcomes fuel plan t loc).attempts[i]? = some a)
+    (hb : (exec pol idem outcomes fuel plan t loc).attempts[i + 1]? = some b) :
+    ∃ d, (exec pol idem outcomes fuel plan t loc).decisions[i]? = some d ∧ d.isRetry = true ∧
+      b.cl = d.newCl.getD a.cl ∧
+      (d.isRetrySame = true → b.target = a.target) ∧ (d.isRetrySame = false → a.target < b.target) := by
+  fun_induction exec pol idem outcomes fuel plan t loc generalizing i
+  case case1 => simp at hb
+  case case2 => simp at hb
+  case case3 ih => exact ih i ha hb
+  case case4 => simp at hb
+  case case5 fuel rest t loc a0 e hout created r loc' cl hd ih =>
+    cases i with
+    | zero =>
+      simp only [Trace.push, List.getElem?_cons_zero, Option.some.injEq] at ha
+      simp only [Trace.push, Nat.zero_add, List.getElem?_cons_succ] at hb
+      obtain ⟨h1, h2, h3⟩ := exec_first _ _ _ _ _ _ _ _ hb
+      refine ⟨r.2, by simp [Trace.push], isRetry_of_same hd, ?_, ?_, ?_⟩
+      · subst ha; simpa [loc', a0] using h1
+      · intro _; subst ha; simpa [a0] using h3 (by simp)
+      · intro hc; rw [isRetrySame_of_same hd] at hc; cases hc
+    | succ j =>
+      simp only [Trace.push, List.getElem?_cons_succ] at ha hb
+      obtain ⟨d, hd1, hd2⟩ := ih j ha hb
+      exact ⟨d, by simpa [Trace.push] using hd1, hd2⟩
+  case case6 fuel rest t loc a0 e hout created r loc' cl hd ih =>
+    cases i with
+    | zero =>
+      simp only [Trace.push, List.getElem?_cons_zero, Option.some.injEq] at ha
+      simp only [Trace.push, Nat.zero_add, List.getElem?_cons_succ] at hb
+      obtain ⟨h1, h2, h3⟩ := exec_first _ _ _ _ _ _ _ _ hb
+      refine ⟨r.2, by simp [Trace.push], isRetry_of_next hd, ?_, ?_, ?_⟩
+      · subst ha; simpa [loc', a0] using h1
+      · intro hc; rw [hd] at hc; cases hc
+      · intro _; subst ha; simp only [a0]; omega
+    | succ j =>
+      simp only [Trace.push, List.getElem?_cons_succ] at ha hb
+      obtain ⟨d, hd1, hd2⟩ := ih j ha hb
+      exact ⟨d, by simpa [Trace.push] using hd1, hd2⟩
+  case case7 => simp at hb
+  case case8 => simp at hb
+
+/-- Every attempt goes to a target of the plan that yields a connection. -/
+private theorem exec_targets (pol : Policy) (idem : Bool) (outcomes : Nat → Outcome) (fuel : Nat)
+    (plan : List Bool) (t : Nat) (loc : Loc) (b : Attempt)
+    (hb : b ∈ (exec pol idem outcomes fuel plan t loc).attempts) :
+    t ≤ b.target ∧ plan[b.target - t]? = some true := by
+  fun_induction exec pol idem outcomes fuel plan t loc
+  case case1 => simp at hb
+  case case2 => simp at hb
+  case case3 fuel rest t loc ih =>
+    obtain ⟨h1, h2⟩ := ih hb
+    refine ⟨by omega, ?_⟩
+    have : b.target - t = (b.target - (t + 1)) + 1 := by omega
+    rw [this, List.getElem?_cons_succ]; exact h2
+  case case4 fuel rest t loc a hout =>
+    simp only [List.mem_singleton] at hb; subst hb; simp [a]
+  case case5 fuel rest t loc a e hout created r loc' cl hd ih =>
+    simp only [Trace.push, List.mem_cons] at hb
+    rcases hb with hb | hb
+    · subst hb; simp [a]
+    · exact ih hb
+  case case6 fuel rest t loc a e hout created r loc' cl hd ih =>
+    simp only [Trace.push, List.mem_cons] at hb
+    rcases hb with hb | hb
+    · subst hb; simp [a]
+    · obtain ⟨h1, h2⟩ := ih hb
+      refine ⟨by omega, ?_⟩
+      have : b.target - t = (b.target - (t + 1)) + 1 := by omega
+      rw [this, List.getElem?_cons_succ]; exact h2
+  case case7 fuel rest t loc a e hout created r hd =>
+    simp only [List.mem_singleton] at hb; subst hb; simp [a]
+  case case8 fuel rest t loc a e hout created r hd =>
+    simp only [List.mem_singleton] at hb; subst hb; simp [a]
+
+/-- The decisions are exactly what ONE session of the policy answers when it is shown, in order, the error of
+each failed attempt together with the idempotence flag and the consistency that attempt was sent at. -/
+private theorem exec_decisions_replay (pol : Policy) (idem : Bool) (outcomes : Nat → Outcome) (fuel : Nat)
+    (plan : List Bool) (t : Nat) (loc : Loc) :
+    let tr := exec pol idem outcomes fuel plan t loc
+    tr.decisions = replay pol idem (loc.sess.getD Sess.init)
+      (histOf outcomes loc.k (tr.attempts.take tr.decisions.length)) := by
+  fun_induction exec pol idem outcomes fuel plan t loc
+  case case1 => simp [histOf, replay]
+  case case2 => simp [histOf, replay]
+  case case3 ih => exact ih
+  case case4 => simp [histOf, replay]
+  case case5 fuel rest t loc a e hout created r loc' cl hd ih =>
+    simp only [Trace.push, List.length_cons, List.take_succ_cons, histOf, replay, errAt, hout] at ih ⊢
+    simp only [loc', Option.getD_some] at ih
+    simp only [a, r, List.cons.injEq, true_and]
+    exact ih
+  case case6 fuel rest t loc a e hout created r loc' cl hd ih =>
+    simp only [Trace.push, List.length_cons, List.take_succ_cons, histOf, replay, errAt, hout] at ih ⊢
+    simp only [loc', Option.getD_some] at ih
+    simp only [a, r, List.cons.injEq, true_and]
+    exact ih
+  case case7 fuel rest t loc a e hout created r hd =>
+    simp only [List.length_cons, List.length_nil, List.take_succ_cons, List.take_zero, histOf, replay, errAt,
+      hout, a]
+    simp only [r] at hd; simp [hd]
+  case case8 fuel rest t loc a e hout created r hd =>
+    simp only [List.length_cons, List.length_nil, List.take_succ_cons, List.take_zero, histOf, replay, errAt,
+      hout, a]
+    simp only [r] at hd; simp [hd]
+
+private theorem exec_sessions (pol : Policy) (idem : Bool) (outcomes : Nat → Outcome) (fuel : Nat)
+    (plan : List Bool) (t : Nat) (loc : Loc) :
+    let tr := exec pol idem outcomes fuel plan t loc
+    tr.newSessions = if loc.sess.isSome || tr.decisions.isEmpty then 0 else 1 := by
+  fun_induction exec pol idem outcomes fuel plan t loc
+  case case1 => simp
+  case case2 => simp
+  case case3 ih => exact ih
+  case case4 => simp
+  case case5 fuel rest t loc a e hout created r loc' cl hd ih =>
+    simp only [Trace.push, loc', Option.isSome_some, Bool.true_or, if_true] at ih ⊢
+    simp only [ih, created]; cases loc.sess <;> simp
+  case case6 fuel rest t loc a e hout created r loc' cl hd ih =>
+    simp only [Trace.push, loc', Option.isSome_some, Bool.true_or, if_true] at ih ⊢
+    simp only [ih, created]; cases loc.sess <;> simp
+  case case7 fuel rest t loc a e hout created r hd => simp only [created]; cases loc.sess <;> simp
+  case case8 fuel rest t loc a e hout created r hd => simp only [created]; cases loc.sess <;> simp
+
+private theorem exec_ignored_idem (pol : Policy) (outcomes : Nat → Outcome) (fuel : Nat)
+    (plan : List Bool) (t : Nat) (loc : Loc) (tg : Nat) :
+    (exec pol false outcomes fuel plan t loc).final ≠ .ignored tg := by
+  fun_induction exec pol false outcomes fuel plan t loc
+  case case1 => simp
+  case case2 => simp
+  case case3 ih => exact ih
+  case case4 => simp
+  case case5 ih => simpa [Trace.push] using ih
+  case case6 ih => simpa [Trace.push] using ih
+  case case7 => simp
+  case case8 fuel rest t loc a e hout created r hd =>
+    exact absurd hd (decide_ignore_only_idempotent pol _ e loc.cl)
+
+/-- How the fiber ends, tied to the last attempt. -/
+private theorem exec_final (pol : Policy) (idem : Bool) (outcomes : Nat → Outcome) (fuel : Nat)
+    (plan : List Bool) (t : Nat) (loc : Loc) :
+    let tr := exec pol idem outcomes fuel plan t loc
+    (∀ tg, tr.final = .completed tg → tr.attempts ≠ [] ∧
+      outcomes (loc.k + tr.attempts.length - 1) = .ok ∧ (tr.attempts.getLast?.map (·.target)) = some tg) ∧
+    (∀ e, tr.final = .stopped e → tr.attempts ≠ [] ∧
+      outcomes (loc.k + tr.attempts.length - 1) = .fail e ∧ tr.decisions.getLast? = some .dontRetry) ∧
+    (∀ tg, tr.final = .ignored tg → tr.attempts ≠ [] ∧
+      tr.decisions.getLast? = some .ignoreWrite ∧ (tr.attempts.getLast?.map (·.target)) = some tg) := by
+  fun_induction exec pol idem outcomes fuel plan t loc
+  case case1 => simp
+  case case2 => simp
+  case case3 ih => exact ih
+  case case4 fuel rest t loc a hout => simp [hout, a]
+  case case5 fuel rest t loc a e hout created r loc' cl hd ih =>
+    simp only [Trace.push, loc'] at ih ⊢
+    obtain ⟨i1, i2, i3⟩ := ih
+    refine ⟨fun tg h => ?_, fun e h => ?_, fun tg h => ?_⟩
+    · obtain ⟨n1, n2, n3⟩ := i1 tg h
+      refine ⟨by simp, ?_, ?_⟩
+      · have : 0 < (exec pol idem outcomes fuel (true :: rest) t loc').attempts.length :=
+          List.length_pos_iff.mpr n1
+        simp only [List.length_cons, loc'] at n2 this ⊢
+        have e1 : loc.k + ((exec pol idem outcomes fuel (true :: rest) t loc').attempts.length + 1) - 1
+            = loc.k + 1 + (exec pol idem outcomes fuel (true :: rest) t loc').attempts.length - 1 := by omega
+        rw [e1]; exact n2
+      · rw [List.getLast?_cons_of_ne_nil n1]; exact n3
+    · obtain ⟨n1, n2, n3⟩ := i2 e h
+      refine ⟨by simp, ?_, ?_⟩
+      · have : 0 < (exec pol idem outcomes fuel (true :: rest) t loc').attempts.length :=
+          List.length_pos_iff.mpr n1
+        simp only [List.length_cons, loc'] at n2 this ⊢
+        have e1 : loc.k + ((exec pol idem outcomes fuel (true :: rest) t loc').attempts.length + 1) - 1
+            = loc.k + 1 + (exec pol idem outcomes fuel (true :: rest) t loc').attempts.length - 1 := by omega
+        rw [e1]; exact n2
+      · have hne : (exec pol idem outcomes fuel (true :: rest) t loc').decisions ≠ [] := by
+          intro hnil; rw [hnil] at n3; simp at n3
+        rw [List.getLast?_cons_of_ne_nil hne]; exact n3
+    · obtain ⟨n1, n2, n3⟩ := i3 tg h
+      refine ⟨by simp, ?_, ?_⟩
+      · have hne : (exec pol idem outcomes fuel (true :: rest) t loc').decisions ≠ [] := by
+          intro hnil; rw [hnil] at n2; simp at n2
+        rw [List.getLast?_cons_of_ne_nil hne]; exact n2
+      · rw [List.getLast?_cons_of_ne_nil n1]; exact n3
+  case case6 fuel rest t loc a e hout created r loc' cl hd ih =>
+    simp only [Trace.push, loc'] at ih ⊢
+    obtain ⟨i1, i2, i3⟩ := ih
+    refine ⟨fun tg h => ?_, fun e h => ?_, fun tg h => ?_⟩
+    · obtain ⟨n1, n2, n3⟩ := i1 tg h
+      refine ⟨by simp, ?_, ?_⟩
+      · have : 0 < (exec pol idem outcomes fuel rest (t + 1) loc').attempts.length :=
+          List.length_pos_iff.mpr n1
+        simp only [List.length_cons, loc'] at n2 this ⊢
+        have e1 : loc.k + ((exec pol idem outcomes fuel rest (t + 1) loc').attempts.length + 1) - 1
+            = loc.k + 1 + (exec pol idem outcomes fuel rest (t + 1) loc').attempts.length - 1 := by omega
+        rw [e1]; exact n2
+      · rw [List.getLast?_cons_of_ne_nil n1]; exact n3
+    · obtain ⟨n1, n2, n3⟩ := i2 e h
+      refine ⟨by simp, ?_, ?_⟩
+      · have : 0 < (exec pol idem outcomes fuel rest (t + 1) loc').attempts.length :=
+          List.length_pos_iff.mpr n1
+        simp only [List.length_cons, loc'] at n2 this ⊢
+        have e1 : loc.k + ((exec pol idem outcomes fuel rest (t + 1) loc').attempts.length + 1) - 1
+            = loc.k + 1 + (exec pol idem outcomes fuel rest (t + 1) loc').attempts.length - 1 := by omega
+        rw [e1]; exact n2
+      · have hne : (exec pol idem outcomes fuel rest (t + 1) loc').decisions ≠ [] := by
+          intro hnil; rw [hnil] at n3; simp at n3
+        rw [List.getLast?_cons_of_ne_nil hne]; exact n3
+    · obtain ⟨n1, n2, n3⟩ := i3 tg h
+      refine ⟨by simp, ?_, ?_⟩
+      · have hne : (exec pol idem outcomes fuel rest (t + 1) loc').decisions ≠ [] := by
+          intro hnil; rw [hnil] at n2; simp at n2
+        rw [List.getLast?_cons_of_ne_nil hne]; exact n2
+      · rw [List.getLast?_cons_of_ne_nil n1]; exact n3
+  case case7 fuel rest t loc a e hout created r hd => simp [hout]
+  case case8 fuel rest t loc a e hout created r hd => simp [a]
+
+/-- An attempt is followed by another one only if it failed (any request). -/
+private theorem exec_resend_after_failure (pol : Policy) (idem : Bool) (outcomes : Nat → Outcome) (fuel : Nat)
+    (plan : List Bool) (t : Nat) (loc : Loc) (i : Nat)
+    (hi : i + 1 < (exec pol idem outcomes fuel plan t loc).attempts.length) :
+    ∃ e, outcomes (loc.k + i) = .fail e := by
+  fun_induction exec pol idem outcomes fuel plan t loc generalizing i
+  case case1 => simp at hi
+  case case2 => simp at hi
+  case case3 ih => exact ih i hi
+  case case4 => simp at hi
+  case case5 fuel rest t loc a e hout created r loc' cl hd ih =>
+    cases i with
+    | zero => exact ⟨e, by simpa using hout⟩
+    | succ j =>
+      have := ih j (by simpa [Trace.push] using hi)
+      simpa [loc', Nat.add_assoc, Nat.add_comm 1 j] using this
+  case case6 fuel rest t loc a e hout created r loc' cl hd ih =>
+    cases i with
+    | zero => exact ⟨e, by simpa using hout⟩
+    | succ j =>
+      have := ih j (by simpa [Trace.push] using hi)
+      simpa [loc', Nat.add_assoc, Nat.add_comm 1 j] using this
+  case case7 => simp at hi
+  case case8 => simp at hi
+
+/-! ### the property theorems — about `run pol idem cl0 plan outcomes`: one request, one fiber -/
+
+section
+variable (pol : Policy) (idem : Bool) (cl0 : Consistency) (plan : List Bool) (outcomes : Nat → Outcome)
+
+/-- **C06, main statement.**  A request that is not marked idempotent is sent again (attempt `k+1` exists) only
+if attempt `k` failed with an error proving it was not applied: unavailable, bootstrapping, no free stream id,
+read timeout.  Every plan, every outcome history, every initial consistency, each of the three policies. -/
+theorem nonidempotent_resend_only_after_proof (k : Nat)
+    (h : k + 1 < (run pol false cl0 plan outcomes).attempts.length) :
+    ∃ e, outcomes k = .fail e ∧ proofOfNonApplication e = true := by
+  have := exec_nonidem pol outcomes _ plan 0 (Loc.init cl0) k h
+  simpa [Loc.init] using this
+
+/-- Contrapositive, for any error outside the four "proof" errors: attempt `k` is the last one. -/
+theorem nonidempotent_never_resent_after (k : Nat) (e : Err) (hk : outcomes k = .fail e)
+    (he : proofOfNonApplication e = false) :
+    (run pol false cl0 plan outcomes).attempts.length ≤ k + 1 := by
+  apply Nat.le_of_not_lt
+  intro h
+  obtain ⟨e', h1, h2⟩ := nonidempotent_resend_only_after_proof pol cl0 plan outcomes k h
+  rw [hk] at h1; cases h1; rw [he] at h2; cases h2
+
+/-- … never after a broken connection, -/
+theorem never_after_broken_connection (k : Nat) (hk : outcomes k = .fail .brokenConnection) :
+    (run pol false cl0 plan outcomes).attempts.length ≤ k + 1 :=
+  nonidempotent_never_resent_after pol cl0 plan outcomes k _ hk rfl
+
+/-- … never after an overloaded / server / truncate error, -/
+theorem never_after_overloaded_server_truncate (k : Nat) (db : DbErr)
+    (hdb : db = .overloaded ∨ db = .serverError ∨ db = .truncateError)
+    (hk : outcomes k = .fail (.dbError db)) :
+    (run pol false cl0 plan outcomes).attempts.length ≤ k + 1 := by
+  apply nonidempotent_never_resent_after pol cl0 plan outcomes k _ hk
+  rcases hdb with h | h | h <;> subst h <;> rfl
+
+/-- … never after a write timeout (whatever `received` and the write type), -/
+theorem never_after_write_timeout (k : Nat) (received : Int) (wt : WriteType)
+    (hk : outcomes k = .fail (.dbError (.writeTimeout received wt))) :
+    (run pol false cl0 plan outcomes).attempts.length ≤ k + 1 :=
+  nonidempotent_never_resent_after pol cl0 plan outcomes k _ hk rfl
+
+/-- … and no request (idempotent or not) is sent again after an attempt that succeeded. -/
+theorem never_after_success (k : Nat) (hk : outcomes k = .ok) :
+    (run pol idem cl0 plan outcomes).attempts.length ≤ k + 1 := by
+  apply Nat.le_of_not_lt
+  intro h
+  obtain ⟨e, he⟩ := exec_resend_after_failure pol idem outcomes _ plan 0 (Loc.init cl0) k h
+  simp [Loc.init, hk] at he
+
+/-- A request that is not marked idempotent is never answered with `IgnoredWriteError`. -/
+theorem ignored_write_only_idempotent (tg : Nat) :
+    (run pol false cl0 plan outcomes).final ≠ .ignored tg :=
+  exec_ignored_idem pol outcomes _ plan 0 (Loc.init cl0) tg
+
+/-- **The default policy never retries a request at serial consistency**: at most one attempt. -/
+theorem default_never_retries_serial (h : cl0.isSerial = true) :
+    (run .default idem cl0 plan outcomes).attempts.length ≤ 1 :=
+  exec_default_serial idem outcomes _ plan 0 (Loc.init cl0) h
+
+/-- The fallthrough policy: at most one attempt. -/
+theorem fallthrough_single_attempt :
+    (run .fallthrough idem cl0 plan outcomes).attempts.length ≤ 1 :=
+  exec_fallthrough idem outcomes _ plan 0 (Loc.init cl0)
+
+/-- **Bound.**  The number of attempts is at most the plan length plus the policy's fixed number of same-node
+retries (2 / 1 / 0, `sameTargetBound_values`). -/
+theorem attempts_bounded :
+    (run pol idem cl0 plan outcomes).attempts.length ≤ plan.length + sameTargetBound pol :=
+  exec_attempts_le pol idem outcomes _ plan 0 (Loc.init cl0)
+
+/-- **The loop terminates**: the fuel `run` gives the loop (plan length + same-node bound + 1 iterations) is
+never exhausted — the Rust `loop` cannot spin — -/
+theorem loop_terminates : (run pol idem cl0 plan outcomes).final ≠ .outOfFuel :=
+  exec_not_outOfFuel pol idem outcomes _ plan 0 (Loc.init cl0)
+    (by simp only [Loc.init, Option.getD_none, sameTargetBound]; omega)
+
+/-- … and any larger fuel gives exactly the same trace (the fuel is not a bound on what is modelled). -/
+theorem fuel_irrelevant (extra : Nat) :
+    exec pol idem outcomes (plan.length + sameTargetBound pol + 1 + extra) plan 0 (Loc.init cl0)
+      = run pol idem cl0 plan outcomes := by
+  induction extra with
+  | zero => rfl
+  | succ n ih =>
+    rw [← ih, ← Nat.add_assoc]
+    apply exec_fuel_succ
+    simp only [Loc.init, Option.getD_none, sameTargetBound]; omega
+
+/-- **The driver sends exactly the attempts the policy decided.**  Unless the plan ran out, the number of
+attempts is 1 + the number of retry decisions; when the plan ran out every failed attempt was answered by a
+retry decision and the last one could not be honoured. -/
+theorem sends_exactly_decided :
+    let tr := run pol idem cl0 plan outcomes
+    tr.attempts.length = countRetry tr.decisions + (if tr.final.planRanOut then 0 else 1) := by
+  have h := (exec_counts pol idem outcomes (plan.length + sameTargetBound pol + 1) plan 0 (Loc.init cl0)).1
+  have hf := loop_terminates pol idem cl0 plan outcomes
+  simp only [run] at hf ⊢
+  have hl : ∀ f : Final, f ≠ .outOfFuel → answeredLast f = if f.planRanOut then 0 else 1 := by
+    intro f hf; cases f <;> simp_all [answeredLast, Final.planRanOut]
+  rw [h, hl _ hf]
+  first | rfl | simp
+
+/-- The retry session is consulted exactly once per failed attempt (all attempts fail except a final
+successful one). -/
+theorem one_decision_per_failed_attempt :
+    let tr := run pol idem cl0 plan outcomes
+    tr.attempts.length = tr.decisions.length + succeeded tr.final :=
+  (exec_counts pol idem outcomes _ plan 0 (Loc.init cl0)).2
+
+/-- The decisions are those of ONE session of the policy (`new_session()` flags) fed, in order, the error of
+each failed attempt with the request's idempotence flag and the consistency that attempt was sent at. -/
+theorem decisions_are_policy_replay :
+    let tr := run pol idem cl0 plan outcomes
+    tr.decisions = replay pol idem Sess.init (histOf outcomes 0 (tr.attempts.take tr.decisions.length)) :=
+  exec_decisions_replay pol idem outcomes _ plan 0 (Loc.init cl0)
+
+/-- Attempt `i+1` is the one decision `i` asked for: decision `i` is a retry decision, the consistency of
+attempt `i+1` is the one it returned (or the unchanged one), the target is the same one for `RetrySameTarget`
+and a later one for `RetryNextTarget`. -/
+theorem attempt_follows_decision (i : Nat) (a b : Attempt)
+    (ha : (run pol idem cl0 plan outcomes).attempts[i]? = some a)
+    (hb : (run pol idem cl0 plan outcomes).attempts[i + 1]? = some b) :
+    ∃ d, (run pol idem cl0 plan outcomes).decisions[i]? = some d ∧ d.isRetry = true ∧
+      b.cl = d.newCl.getD a.cl ∧
+      (d.isRetrySame = true → b.target = a.target) ∧ (d.isRetrySame = false → a.target < b.target) :=
+  exec_threading pol idem outcomes _ plan 0 (Loc.init cl0) i a b ha hb
+
+/-- The first attempt is sent at the statement's consistency. -/
+theorem first_attempt_consistency (a : Attempt)
+    (ha : (run pol idem cl0 plan outcomes).attempts[0]? = some a) : a.cl = cl0 :=
+  (exec_first pol idem outcomes _ plan 0 (Loc.init cl0) a ha).1
+
+/-- Attempts are only made on targets of the plan that yielded a connection (a target whose pool gives no
+connection is skipped without an attempt). -/
+theorem attempts_on_connected_targets (a : Attempt) (ha : a ∈ (run pol idem cl0 plan outcomes).attempts) :
+    plan[a.target]? = some true := by
+  simpa using (exec_targets pol idem outcomes _ plan 0 (Loc.init cl0) a ha).2
+
+/-- The retry session is created lazily and at most once: no session when no attempt failed, else one. -/
+theorem one_session :
+    let tr := run pol idem cl0 plan outcomes
+    tr.newSessions = if tr.decisions.isEmpty then 0 else 1 := by
+  simpa [Loc.init, run] using exec_sessions pol idem outcomes (plan.length + sameTargetBound pol + 1) plan 0 (Loc.init cl0)
+
+/-- What is returned, tied to the last attempt: `Completed` = the last attempt succeeded (on that target); the
+error returned after `DontRetry` is the error of the last attempt; `IgnoredWriteError` follows an
+`IgnoreWriteError` decision on the last attempt. -/
+theorem result_is_about_last_attempt :
+    let tr := run pol idem cl0 plan outcomes
+    (∀ tg, tr.final = .completed tg → tr.attempts ≠ [] ∧
+      outcomes (tr.attempts.length - 1) = .ok ∧ (tr.attempts.getLast?.map (·.target)) = some tg) ∧
+    (∀ e, tr.final = .stopped e → tr.attempts ≠ [] ∧
+      outcomes (tr.attempts.length - 1) = .fail e ∧ tr.decisions.getLast? = some .dontRetry) ∧
+    (∀ tg, tr.final = .ignored tg → tr.attempts ≠ [] ∧
+      tr.decisions.getLast? = some .ignoreWrite ∧ (tr.attempts.getLast?.map (·.target)) = some tg) := by
+  simpa [Loc.init, run] using exec_final pol idem outcomes (plan.length + sameTargetBound pol + 1) plan 0 (Loc.init cl0)
+
+end
+
+/-! ### non-vacuity: concrete runs -/
+
+/-- scripted outcomes; attempts beyond the script succeed -/
+def script (os : List Outcome) : Nat → Outcome := fun k => os.getD k .ok
+
+-- a non-idempotent request IS re-sent after read timeout (same node) and unavailable (next node; the target
+-- without a connection is skipped), and NOT after the broken connection
+example :
+    run .default false .quorum [true, false, true]
+      (script [.fail (.dbError (.readTimeout 2 2 false)), .fail (.dbError (.unavailable 1)), .fail .brokenConnection])
+    = ⟨[⟨0, .quorum⟩, ⟨0, .quorum⟩, ⟨2, .quorum⟩], [.retrySame none, .retryNext none, .dontRetry],
+       .stopped .brokenConnection, 1⟩ := by decide
+
+-- the bound plan.length + 2 is attained by the default policy (idempotent request, one target)
+example :
+    (run .default true .quorum [true]
+      (script [.fail (.dbError (.readTimeout 2 2 false)), .fail (.dbError (.writeTimeout 0 .batchLog)),
+        .fail (.dbError (.readTimeout 2 2 false))])).attempts.length = 1 + sameTargetBound .default := by decide
+
+-- downgrading: the lowered consistency is threaded into the next attempts, also across targets
+example :
+    run .downgrading false .quorum [true, true]
+      (script [.fail (.dbError (.unavailable 2)), .fail (.dbError .isBootstrapping)])
+    = ⟨[⟨0, .quorum⟩, ⟨0, .two⟩, ⟨1, .two⟩], [.retrySame (some .two), .retryNext none], .completed 1, 1⟩ := by
+  decide
+
+-- IgnoreWriteError (idempotent only); plan ran out after a RetryNextTarget (pool error is returned);
+-- default at serial consistency: one attempt even after `unavailable`; empty plan
+example :
+    (run .downgrading true .all [true, true] (script [.fail (.dbError (.writeTimeout 1 .simple))])).final = .ignored 0 ∧
+    run .default true .quorum [true, false] (script [.fail .brokenConnection])
+      = ⟨[⟨0, .quorum⟩], [.retryNext none], .exhausted (some .pool), 1⟩ ∧
+    run .default false .serial [false, true, true] (script [.fail (.dbError (.unavailable 1))])
+      = ⟨[⟨1, .serial⟩], [.dontRetry], .stopped (.dbError (.unavailable 1)), 1⟩ ∧
+    run .default false .one [] (script []) = ⟨[], [], .exhausted none, 0⟩ ∧
+    (run .fallthrough true .one [true, true] (script [.fail (.dbError .isBootstrapping)])).attempts.length = 1 := by
+  decide
 
 end ScyllaVerif.Props.C06
